@@ -353,7 +353,7 @@ func (t *Tree) stmt(ctx string, s *Scope) Node {
 	//out the symbol tables in a separate pass top down
 	ns := OpenScope(s)
 	body := t.stmtBody(id.val+" "+arg, ns)
-	n := t.NewNode(id, arg, body, s)
+	n := t.NewNode(id, arg, body, ns)
 	if n.Type() == NodeUnknown && !strings.Contains(id.val, ":") {
 		// Only statements defined by an extension, which are always
 		// prefixed, may be unknown to us.
